@@ -53,6 +53,11 @@ claim("C11",
   "Round-trip equality, canonical integer forms and equality of decoded values are value properties of a reflective codec: NOT decided; implicit runtime panics inside reflect other than allocation sizes are not decided." + TB,
   STATIC + "registry/sibling agreement over the call index and type switches (K5), guard dominance at allocation sites (K1), path query sort-before-emit (K7), reachability over static calls and function values with a reviewed sink table (K9)")
 
+claim("C07",
+  "Structural necessary conditions of double-spend protection at every layer: duplicate-image test dominates the per-transaction and per-block insertions, the prime-subgroup check is on every path accepting a confidential input, every loop iteration of CheckStoreState/checkState handling a confidential input passes the not-spent (and not-in-mempool) edge (decided per iteration as an all-paths property), images are collected unconditionally for every confidential input, carried into the block result and persisted by CommitBlock/SaveKImages (every element, error returned); the three-way nonce comparison of all six check functions decided from the facts at their rejections and at the exact-nonce continuation, nonce advanced by exactly one on every path of Transit. Known finding: CommitBlock drops SaveUtxo's error.",
+  "Uniqueness over the whole history as a set property, mempool/chain interleavings (C15) and the cryptographic link between key image and output are not decided; ringct cgo is trusted." + TB,
+  STATIC + "guard dominance (K1), per-iteration all-paths loop queries (K2), ordering-fact tables at rejections (K6), error discipline (K8)")
+
 for _p in ["C%02d" % i for i in range(1, 21)]:
     if _p not in CLAIMED:
         na(_p, PENDING)
